@@ -219,7 +219,10 @@ def dr_se_part(ctx, fails):
             df = pd.concat([df, extra], ignore_index=True)
             df = df.loc[ctx.rng.sample(list(df.index), len(df))].reset_index(drop=True)
             ctx.count('dr_se: frames with rows dropped for a missing non-outcome value')
-        payload = {'part': 'dr_se', 'data': {c: [None if (isinstance(v, float) and v != v) else v for v in df[c].tolist()] for c in df.columns}, 'meta': meta}
+        df, dr = datagen.dress(df, ctx.rng, i)
+        ctx.count('dr_se row labels:' + dr['index'])
+        ctx.count('dr_se exposure dtype:' + dr['adtype'])
+        payload = {'part': 'dr_se', 'frame': datagen.pack_frame(df), 'meta': meta}
         gt = [ctx.rng.choice([0.25, 0.375, 0.5, 0.625, 0.75]) for _ in range(meta['n_strata'])]
         q1t = [ctx.rng.choice([0.25, 0.5, 0.625, 0.75]) for _ in range(meta['n_strata'])]
         q0t = [ctx.rng.choice([0.125, 0.25, 0.5, 0.75]) for _ in range(meta['n_strata'])]
@@ -317,7 +320,9 @@ def iptw_part(ctx, fails):
     for i in range(n):
         otype = ['binary', 'normal'][i % 2]
         df, meta = small_cat(ctx, otype)
-        payload = {'part': 'iptw', 'data': df.to_dict('list'), 'meta': meta}
+        df, dr = datagen.dress(df, ctx.rng, i)
+        ctx.count('iptw row labels:' + dr['index'])
+        payload = {'part': 'iptw', 'frame': datagen.pack_frame(df), 'meta': meta}
         stab = bool(i % 3 == 0)
         try:
             ip = IPTW(df, 'A', 'Y')
